@@ -231,3 +231,33 @@ class HeldBus:
                     await asyncio.sleep(0)
 
         return Consumer, Producer
+
+
+
+def reset_internal_bus():
+    """Empty tickit's process-wide in-memory message server between cases WITHOUT depending on where its
+    containers live (class attributes, instance attributes of the singleton, their names): every dict-like
+    attribute of the class and of the current singleton instance is cleared and the instance is forgotten,
+    so the next producer/consumer gets a fresh, empty server."""
+    from tickit.core.state_interfaces import internal as _internal
+    cls = _internal.InternalStateServer
+    holders = [cls]
+    try:
+        holders.append(cls())
+    except Exception:
+        pass
+    for h in holders:
+        for name, v in list(vars(h).items()):
+            if name.startswith("__"):
+                continue
+            if hasattr(v, "clear") and hasattr(v, "keys"):
+                try:
+                    v.clear()
+                except Exception:
+                    pass
+    reg = getattr(type(cls), "_instances", None)
+    try:
+        if reg is not None and cls in reg:
+            del reg[cls]
+    except Exception:
+        pass
